@@ -333,7 +333,7 @@ class WFSA:
 
     def total_weight(self):
         b = self.backward
-        return sum(self.start[i] * b[i] for i in self.start)
+        return sum((self.start[i] * b[i] for i in self.start), start=self.R.zero)
 
     @cached_property
     def G(self):
